@@ -78,6 +78,56 @@ def scenario(sc, results, lock):
         results.append(out)
 
 
+def reuse_cases():
+    """a gateway whose worker does not react is exit()ed by the user, a replacement with the SAME id is created, then terminate(timeout):
+    the exited gateway is still waited for / killed, both processes are gone afterwards"""
+    import execnet
+
+    res = []
+    for env in ("stopped", "swallow"):
+        group = execnet.Group()
+        import atexit
+
+        atexit.unregister(group._cleanup_atexit)
+        sc = {"timeout": 0.5, "gws": [{"env": env, "execmodel": "thread", "topo": "popen", "reused_id": True}]}
+        out = {"k": "terminate", "timeout_ms": 500, "rounds": 1, "n": 2, "elapsed_ms": 0, "group_len": -1, "leftover": -1, "err": "", "sc": sc}
+        before = procs.descendants(os.getpid())
+        pids = []
+        try:
+            gw1 = group.makegateway("popen//id=same")
+            pids.append(gw1.remote_exec("import os\nchannel.send(os.getpid())").receive(30))
+            if BODIES.get(env):
+                gw1.remote_exec(BODIES[env])
+            time.sleep(0.25)
+            if env == "stopped":
+                os.kill(pids[0], signal.SIGSTOP)
+            gw1.exit()
+            gw2 = group.makegateway("popen//id=same")
+            pids.append(gw2.remote_exec("import os\nchannel.send(os.getpid())").receive(30))
+            started = (procs.descendants(os.getpid()) | set(pids)) - before
+            t0 = time.monotonic()
+            try:
+                group.terminate(timeout=0.5)
+            except Exception as e:  # noqa: BLE001
+                out["err"] = type(e).__name__
+            out["elapsed_ms"] = int((time.monotonic() - t0) * 1000)
+            out["group_len"] = len(group)
+            gone = procs.wait_gone(started, 1.5)
+            left = [p for p, ms in gone.items() if ms == -1]
+            out["leftover"] = len(left)
+            for p in left:
+                try:
+                    os.kill(p, signal.SIGCONT)
+                except OSError:
+                    pass
+            procs.reap(left)
+        except Exception as e:  # noqa: BLE001
+            out["err"] = "harness:" + type(e).__name__ + ":" + str(e)[:100]
+            procs.reap(pids)
+        res.append(out)
+    return res
+
+
 def mkfail_cases():
     """a makegateway call that fails leaves no process behind: at once when it is refused up front (id taken, bad spec),
     at the latest after terminate() when the failure happens once the interpreter runs (chdir / nice / env configuration)"""
@@ -152,6 +202,7 @@ def run(ctx):
     for sc in scs:
         scenario(sc, results, lock)
     results += mkfail_cases()
+    results += reuse_cases()
     herr = [x for x in results if str(x.get("err", "")).startswith("harness:")]
     if herr:
         ctx.machinery(json.dumps(herr[0])[:600])
